@@ -21,7 +21,7 @@ pub fn oracle_with(m: &Message, before: Option<&Message>) -> Result<Option<Vec<u
     let r = catch(|| {
         let mut b = MessageBuilder::new();
         if let Some(d) = before {
-            let _ = b.build_message(d).map(|f| f.len());
+            crate::msggen::use_builder_before(&mut b, d);
         }
         b.build_message(m).map(|f| f.to_vec()).map_err(|e| format!("{:?}", e))
     });
